@@ -188,10 +188,9 @@ func check(sc *Script, m *model, ob *obs) []violation {
 			add("acked-after-failed-dlq-write/"+topo, "original %d was acked although the DLQ rejected it", o)
 		}
 	}
-	if ob.err != nil && L > 0 && ended != "dlq-write-failed" {
-		// nothing at or after the refused position is acked: L <= index of a justifying origin (checked above via o >= L)
-		_ = ended
-	}
+	// "nothing at or after the refused position is acked" is part of the justification above: the
+	// justifying origin must have index >= L.
+	_ = ended
 
 	// ---- (2) deliveries per destination
 	for d := range sc.Dests {
@@ -388,7 +387,7 @@ func TestC08Funnel(t *testing.T) {
 	st := pbt.For("C08")
 	defer st.Finish(t)
 	rapid.Check(t, func(t *rapid.T) {
-		sc, m := genScript(t, genOpts{})
+		sc, m := genScript(t)
 		for iter := 0; iter < 6; iter++ {
 			changed := false
 			for _, ks := range knownShapes {
